@@ -339,7 +339,7 @@ def analyse(repo: Repo, fi: FuncInfo, node: Node, call: ast.Call, facts=None, ca
                     res.g1_why = "capture group %d of %r admits %r, not in the base-%d digit language" % (k, pat, w, base)
     # (a) dominating fullmatch fact on the operand text, (c) isascii+isdigit
     if not res.g1:
-        isascii = isdig = False
+        isascii = isdig = isdec = False
         for text, pol in F:
             if text.startswith("@"):
                 continue
@@ -367,7 +367,11 @@ def analyse(repo: Repo, fi: FuncInfo, node: Node, call: ast.Call, facts=None, ca
                     isascii = True
                 if e.func.attr in ("isdigit", "isdecimal"):
                     isdig = True
-        if not res.g1 and isdig and (isascii or not ascii_only) and base == 10:
+                if e.func.attr == "isdecimal":
+                    isdec = True
+        # without isascii(): only isdecimal() (category Nd, exactly what int() accepts) makes int() total;
+        # isdigit() also admits superscripts and other Numeric_Type=Digit characters that int() rejects
+        if not res.g1 and isdig and (isascii or (not ascii_only and isdec)) and base == 10:
             res.g1, res.g1_why = True, "dominating %s.isascii() and isdigit()/isdecimal()" % optext
         # a match-object truth fact: `m` true where m = P.fullmatch(operand)
         if not res.g1:
